@@ -575,6 +575,13 @@ class Interp:
                     return int(args[0])
                 except (ValueError, TypeError):
                     raise Raised(ExcVal("ValueError", None, {"value": args[0]}, e.lineno))
+            if name == "float":
+                try:
+                    return float(args[0])
+                except ValueError:
+                    raise Raised(ExcVal("ValueError", None, {"value": args[0]}, e.lineno))
+                except TypeError:
+                    raise Raised(ExcVal("TypeError", None, {"value": args[0]}, e.lineno))
             if name == "str":
                 return str(args[0])
             if name == "sorted" and kwargs:
